@@ -12,6 +12,7 @@ pub struct XRule
     pub mask : Vec<usize>,     // targets whose content also depends on the undeclared input
     pub x : bool,              // outputs get the executable bit
     pub pf : bool,             // the command starts with a line that exits non-zero (later lines still run)
+    pub pk : bool,             // ... that line is killed by a signal instead (no exit code); only with pf
     pub layout : u8,           // 0: command on one line, 1: one word per line
     pub rev : bool,            // target / source lines written in reverse order in the rules file
 }
@@ -22,7 +23,7 @@ impl XRule
     {
         let mut t : Vec<String> = tg.iter().map(|s| s.to_string()).collect(); t.sort();
         let mut s : Vec<String> = src.iter().map(|s| s.to_string()).collect(); s.sort();
-        XRule{tg : t, src : s, kind : kind.to_string(), id : id.to_string(), omit : 0, mask : vec![], x : false, pf : false, layout : 0, rev : false}
+        XRule{tg : t, src : s, kind : kind.to_string(), id : id.to_string(), omit : 0, mask : vec![], x : false, pf : false, pk : false, layout : 0, rev : false}
     }
 
     fn flags(&self) -> String
@@ -38,7 +39,7 @@ impl XRule
     {
         let words = vec!["vcmd".to_string(), self.kind.clone(), self.id.clone(), self.tg.join(","), self.src.join(","), self.flags()];
         let mut lines = vec![];
-        if self.pf { lines.push("vcmd false".to_string()); lines.push(";".to_string()); }
+        if self.pf { lines.push(if self.pk { "vcmd killed".to_string() } else { "vcmd false".to_string() }); lines.push(";".to_string()); }
         if self.layout == 0 { lines.push(words.join(" ")); } else { lines.extend(words); }
         lines
     }
@@ -65,7 +66,7 @@ impl XRule
             tg : strs("tg"), src : strs("src"), kind : v["kind"].as_str().unwrap_or("fn").to_string(), id : v["id"].as_str().unwrap_or("").to_string(),
             omit : v["omit"].as_u64().unwrap_or(0) as usize,
             mask : v["mask"].as_array().map(|a| a.iter().map(|x| x.as_u64().unwrap_or(0) as usize).collect()).unwrap_or_default(),
-            x : v["x"].as_bool().unwrap_or(false), pf : v["pf"].as_bool().unwrap_or(false),
+            x : v["x"].as_bool().unwrap_or(false), pf : v["pf"].as_bool().unwrap_or(false), pk : cl.iter().any(|l| l == "vcmd killed"),
             layout : if cl.iter().any(|l| l == "vcmd") { 1 } else { 0 }, rev : false,
         }
     }
@@ -132,9 +133,9 @@ pub struct Cmd { pub kind : String, pub id : String, pub tg : Vec<String>, pub s
 pub fn parse_vcmd(line : &str) -> Option<Cmd>
 {
     let w : Vec<&str> = line.split_whitespace().collect();
-    if w.len() == 2 && w[0] == "vcmd" && w[1] == "false"
+    if w.len() == 2 && w[0] == "vcmd" && (w[1] == "false" || w[1] == "killed")
     {
-        return Some(Cmd{kind : "false".to_string(), id : "".to_string(), tg : vec![], src : vec![], omit : 0, mask : vec![], x : false});
+        return Some(Cmd{kind : w[1].to_string(), id : "".to_string(), tg : vec![], src : vec![], omit : 0, mask : vec![], x : false});
     }
     if w.len() != 6 || w[0] != "vcmd" { return None; }
     let mut cmd = Cmd{kind : w[1].to_string(), id : w[2].to_string(),
